@@ -842,26 +842,31 @@ package keeper
 
 //@ func (Keeper) Attesters$1(key, value) (err)
 //@ serves C19
+//@ local attesters []types.Attester
 //@ ensures[C19.cb] err == nil ==> len(attesters) == old(len(attesters)) + 1 && attesters[old(len(attesters))].Attester == decoded(Attester, Attester, value)
 //@ ensures[C19.cb.keep] forall j: int :: 0 <= j && j < old(len(attesters)) ==> attesters[j].Attester == old(attesters[j].Attester)
 
 //@ func (Keeper) UsedNonces$1(key, value) (err)
 //@ serves C19
+//@ local usedNonces []types.Nonce
 //@ ensures[C19.cb] err == nil ==> len(usedNonces) == old(len(usedNonces)) + 1 && usedNonces[old(len(usedNonces))].SourceDomain == decoded(Nonce, SourceDomain, value) && usedNonces[old(len(usedNonces))].Nonce == decoded(Nonce, Nonce, value)
 //@ ensures[C19.cb.keep] forall j: int :: 0 <= j && j < old(len(usedNonces)) ==> usedNonces[j].Nonce == old(usedNonces[j].Nonce) && usedNonces[j].SourceDomain == old(usedNonces[j].SourceDomain)
 
 //@ func (Keeper) TokenPairs$1(key, value) (err)
 //@ serves C19
+//@ local tokenPairs []types.TokenPair
 //@ ensures[C19.cb] err == nil ==> len(tokenPairs) == old(len(tokenPairs)) + 1 && tokenPairs[old(len(tokenPairs))].RemoteDomain == decoded(TokenPair, RemoteDomain, value) && tokenPairs[old(len(tokenPairs))].RemoteToken == decoded(TokenPair, RemoteToken, value) && tokenPairs[old(len(tokenPairs))].LocalToken == decoded(TokenPair, LocalToken, value)
 //@ ensures[C19.cb.keep] forall j: int :: 0 <= j && j < old(len(tokenPairs)) ==> tokenPairs[j].LocalToken == old(tokenPairs[j].LocalToken) && tokenPairs[j].RemoteDomain == old(tokenPairs[j].RemoteDomain) && tokenPairs[j].RemoteToken == old(tokenPairs[j].RemoteToken)
 
 //@ func (Keeper) RemoteTokenMessengers$1(key, value) (err)
 //@ serves C19
+//@ local remoteTokenMessengers []types.RemoteTokenMessenger
 //@ ensures[C19.cb] err == nil ==> len(remoteTokenMessengers) == old(len(remoteTokenMessengers)) + 1 && remoteTokenMessengers[old(len(remoteTokenMessengers))].DomainId == decoded(RemoteTokenMessenger, DomainId, value) && remoteTokenMessengers[old(len(remoteTokenMessengers))].Address == decoded(RemoteTokenMessenger, Address, value)
 //@ ensures[C19.cb.keep] forall j: int :: 0 <= j && j < old(len(remoteTokenMessengers)) ==> remoteTokenMessengers[j].DomainId == old(remoteTokenMessengers[j].DomainId) && remoteTokenMessengers[j].Address == old(remoteTokenMessengers[j].Address)
 
 //@ func (Keeper) PerMessageBurnLimits$1(key, value) (err)
 //@ serves C19
+//@ local perMessageBurnLimits []types.PerMessageBurnLimit
 //@ ensures[C19.cb] err == nil ==> len(perMessageBurnLimits) == old(len(perMessageBurnLimits)) + 1 && perMessageBurnLimits[old(len(perMessageBurnLimits))].Denom == decoded(PerMessageBurnLimit, Denom, value) && perMessageBurnLimits[old(len(perMessageBurnLimits))].Amount.v == decoded(PerMessageBurnLimit, Amount_v, value)
 //@ ensures[C19.cb.keep] forall j: int :: 0 <= j && j < old(len(perMessageBurnLimits)) ==> perMessageBurnLimits[j].Denom == old(perMessageBurnLimits[j].Denom) && perMessageBurnLimits[j].Amount.v == old(perMessageBurnLimits[j].Amount.v)
 
